@@ -5,7 +5,9 @@ calls it: evidence files, list of peptide->protein maps, method_config.score_typ
 files rendered from an abstract row list, vs PgFdr.C10.ingestFiles (Lean model) on the same rows.
 
 A case is one file set for one shipped method (all 27 TOMLs; a razor method -- sharedPeptides = "razor" -- ingests like
-the others except that the MaxQuant parser reads `Leading razor protein` instead of `Leading proteins`):
+the others except that the MaxQuant parser reads `Leading razor protein` instead of `Leading proteins`; since both shipped
+razor score types on MaxQuant input remap, one method file that is NOT shipped -- CUSTOM, razor without remapping -- is
+drawn as well so that this cell reaches the peptide list):
   {"method": <toml name>, "mokapot": bool, "colseed": int,
    "maps":  [[[peptide, [protein...]], ...], ...]      digest maps (1 or one per file; [] = not remapping)
    "files": [[row, ...], ...]}
@@ -99,6 +101,37 @@ def shipped_classes():
     return SCORE_CLASSES
 
 
+# A method file that is NOT shipped: razor on MaxQuant input WITHOUT remapping.  Both shipped razor score types on
+# MaxQuant input (`multPEP`, `bestPEP`) remap, so the cell they read from `Leading razor protein` is replaced by the
+# digest's proteins and never shows in the peptide list; this method file (handed to methods.parse_method_toml by path,
+# as --methods x.toml would) makes the one thing razor methods do differently during ingestion observable.  Direct
+# calls of parse_evidence_files only.
+CUSTOM = {
+    "custom_razor_mq_input_no_remap": {"label": "Razor, MaxQuant input, no remapping (not shipped)", "scoreType": "no_remap bestPEP",
+                                       "grouping": "no", "sharedPeptides": "razor", "pickedStrategy": "picked_group"},
+}
+
+
+def custom_classes():
+    out = {}
+    for name, d in CUSTOM.items():
+        out.setdefault(d["scoreType"] + (" razor" if d["sharedPeptides"] == "razor" else ""), []).append(name)
+    return out
+
+
+def parse_method(name, d):
+    """MethodConfig of a shipped method name, or of a CUSTOM method file written into the directory d"""
+    from picked_group_fdr import methods
+
+    if name in CUSTOM:
+        f = os.path.join(d, name + ".toml")
+        with open(f, "w", encoding="utf-8") as fh:
+            for k, v in CUSTOM[name].items():
+                fh.write('%s = "%s"\n' % (k, v))
+        return methods.parse_method_toml(f, False)
+    return methods.parse_method_toml(name, False)
+
+
 def is_razor(score_type):
     return "razor" in score_type
 
@@ -118,6 +151,8 @@ def fmt_of(score_type, mokapot):
 
 
 def method_score_type(name):
+    if name in CUSTOM:
+        return next(st for st, names in custom_classes().items() if name in names)
     for st, names in shipped_classes().items():
         if name in names:
             return st
@@ -831,7 +866,8 @@ class P(Prop):
     rule = (
         "file sets (1-3 files, 0-8 rows each) for every shipped method (27 TOMLs, the 8 razor methods included: their MaxQuant "
         "input carries a `Leading razor protein` cell that is one of the leading proteins in 55 % of the rows and another list "
-        "otherwise), score-description classes drawn uniformly "
+        "otherwise; plus one method file that is not shipped, razor on MaxQuant input without remapping, the only configuration in "
+        "which that cell reaches the peptide list), score-description classes drawn uniformly "
         "(MaxQuant remap / multPEP / no_remap, Percolator native + mokapot header with and without remap, FragPipe, Sage, "
         "DIA-NN tsv via pandas, each with and without razor where shipped); 2-4 bare peptides per case spelled with 0-2 modification tokens (nested MaxQuant "
         "parentheses included), PEPs from a 12-point grid so ties are common, 10 % missing PEPs (literal nan; empty cell for "
@@ -1011,7 +1047,7 @@ class P(Prop):
             return {"shared": self.gen_shared(rng)}
         if u < 0.08 + RUN_SHARE:
             return {"run": self.gen_run(rng, "inproc")}
-        classes = shipped_classes()
+        classes = dict(shipped_classes(), **custom_classes())
         st = rng.choice(list(classes))
         method = rng.choice(classes[st])
         mokapot = "Perc" in st and rng.random() < 0.5
@@ -1225,9 +1261,9 @@ class P(Prop):
             raise RuntimeError("pandas float parser disagrees with float() on the PEP literal grid")
         if fmt == "sage" and not pow_grid_ok():
             raise RuntimeError("np.power(10, x) is not correctly rounded on the exponent grid")
-        cfg = methods.parse_method_toml(case["method"], False)
         d = tempfile.mkdtemp(prefix="pgfdr_c10_")
         try:
+            cfg = parse_method(case["method"], d)
             paths = render(case, d)
             maps = [dict((k, list(v)) for k, v in m) for m in case["maps"]] if case["maps"] else [None]
             try:
@@ -1256,7 +1292,10 @@ class P(Prop):
             [{"pep": r["pep"], "mod": r.get("mod", ""), "score": score(r["score"]), "prot": prot(r), "decoy": bool(r.get("decoy"))} for r in rows]
             for rows in c["files"]
         ]
-        return {"op": "ingest", "method": c["method"], "mokapot": bool(c.get("mokapot")), "maps": c["maps"], "files": files}
+        req = {"op": "ingest", "method": c["method"], "mokapot": bool(c.get("mokapot")), "maps": c["maps"], "files": files}
+        if c["method"] in CUSTOM:  # no row of the generated table: the model gets the score description itself
+            req["description"] = method_score_type(c["method"])
+        return req
 
     def model_request(self, case, impl_out):
         if "cli" in case:
@@ -1347,7 +1386,7 @@ class P(Prop):
             return "a PEP cell that is no number (and no missing value of the format) was not refused: %r" % (
                 {k: v for k, v in out.items() if k in ("pil", "err")} if isinstance(out, dict) else out,)
         if not info["refused"] and err is not None:
-            return "ingestion refused the file set (%s) although every PEP cell is a number or a missing value of the format" % err
+            return "ingestion refused the file set (%s) although no cell its parser has to convert holds anything but a number or a missing value of the format" % err
         return None
 
     def judge(self, want, pil):
@@ -1842,7 +1881,7 @@ class P(Prop):
         cases = []
         while len(cases) < ncli:
             c = self.gen_case(crng, ctx["tier"])
-            if "method" in c and cli_ok(c) and sum(len(f) for f in c["files"]) > 0:
+            if "method" in c and c["method"] not in CUSTOM and cli_ok(c) and sum(len(f) for f in c["files"]) > 0:
                 cases.append(c)
         # entry-point runs in processes of their own (`python -m picked_group_fdr ...` with the ingestion recorded):
         # (a) one remapping method, maps from --fasta, several evidence files each with its own digestion parameters;
